@@ -1,5 +1,7 @@
 import LoguruModel.Retention.Lemmas
 import LoguruModel.Retention.Dispatch
+import LoguruModel.Retention.OwnLemmas
+import LoguruModel.Retention.HistoryLemmas
 /-
 C10 – property theorems (only the theorems and their non-vacuity examples live here).
 The pattern lists, the wildcard for a field, the sort key, the slice start, the age comparison and
@@ -437,6 +439,371 @@ theorem retention_timing (c : TermCfg) (isRotating : Bool) :
   obtain ⟨fo, hr, hret, hc, sp⟩ := c
   cases isRotating <;> cases fo <;> cases hr <;> cases hret <;> cases hc <;> cases sp <;> decide
 
+/-! ## Round 5 – the candidate collection as the code writes it -/
+
+/-- **The globbed candidates pass through a set** before the policy sees them (GENERATED from the
+collection expression of the retention block, helper method followed) -/
+theorem candidates_pass_through_a_set : Gen.collectIsSet = true := by decide
+
+/-- **What the policy receives is exactly what was matched** – the globbed name itself, never a
+resolved path (GENERATED from the element of the comprehension): for every `realpath` function -/
+theorem policy_receives_matched_names (resolve : Str → Str) (ps : List Str) (entries : List Entry) :
+    handedNames resolve ps entries = (collectLogs ps entries).map (·.name) := by
+  unfold handedNames Gen.handedName
+  rfl
+
+/-- the comprehension → set → list of the source and the plain filter of the population (`selectLogs`,
+on which the round-1 theorems are stated) hold the same entries, each once -/
+theorem collect_perm_select (ps : List Str) (entries : List Entry) (hnd : entries.Nodup) :
+    (collectLogs ps entries).Nodup ∧ (collectLogs ps entries).Perm (selectLogs ps entries) := by
+  have hp := collect_perm_select_of_set candidates_pass_through_a_set ps entries hnd
+  refine ⟨?_, hp⟩
+  have : (selectLogs ps entries).Nodup := by unfold selectLogs; exact List.Pairwise.filter _ hnd
+  exact hp.nodup_iff.mpr this
+
+/-- why the set is needed: the bare comprehension lists an entry once per pattern that selects it –
+`a.log.log` is selected by `a.log.*` and by `a.*.log` (a callable would receive it twice,
+`retention_count` would count it twice and `os.remove` it twice) -/
+theorem comprehension_lists_once_per_pattern :
+    ∃ ps entries e, makeGlobPatterns "a.log".toList = .ok ps ∧ entries.Nodup ∧
+      (comprehension ps entries).count e = 2 ∧ (collectLogs ps entries).count e = 1 := by
+  refine ⟨_, [⟨"a.log.log".toList, .regular, 1⟩], ⟨"a.log.log".toList, .regular, 1⟩, rfl, by simp, ?_, ?_⟩ <;> decide
+
+/-- **A callable policy receives exactly the family files, each once** – stated on the family of the
+property (not on patterns): for every configured path and every population without duplicates, the
+handed names are pairwise distinct; each is the name of a regular family file of the directory; and
+every regular family file none of whose components starts with `.` is among them -/
+theorem callable_receives_exactly_the_family (path : Str) (ps : List Str) (resolve : Str → Str)
+    (entries : List Entry) (h : makeGlobPatterns path = .ok ps) (hnd : entries.Nodup)
+    (hu : NamesUnique entries) :
+    (handedNames resolve ps entries).Nodup ∧
+    (∀ n ∈ handedNames resolve ps entries, ∃ e ∈ entries, e.name = n ∧ e.isFile = true ∧ family path n) ∧
+    (∀ e ∈ entries, e.isFile = true → family path e.name → (∀ c ∈ comps e.name, isHidden c = false) →
+      e.name ∈ handedNames resolve ps entries) := by
+  rw [policy_receives_matched_names]
+  have hc := collect_perm_select ps entries hnd
+  have hmem : ∀ e, e ∈ collectLogs ps entries ↔ e ∈ selectLogs ps entries := mem_collectLogs ps entries
+  have hsel := callable_gets_each_family_file_once ps entries hnd
+  refine ⟨?_, ?_, ?_⟩
+  · -- distinct entries of a directory have distinct names
+    refine nodup_map_name _ hc.1 ?_
+    intro a ha b hb hab
+    have ha' := ((hsel.2 a).mp ((hmem a).mp ha)).1
+    have hb' := ((hsel.2 b).mp ((hmem b).mp hb)).1
+    exact hu a ha' b hb' hab
+  · intro n hn
+    obtain ⟨e, he, rfl⟩ := List.mem_map.mp hn
+    obtain ⟨h1, h2, p, hp, hm⟩ := (hsel.2 e).mp ((hmem e).mp he)
+    exact ⟨e, h1, rfl, h2, patterns_sound path e.name ps h p hp hm⟩
+  · intro e he hf hfam hh
+    obtain ⟨p, hp, hm⟩ := patterns_complete path e.name ps h hfam hh
+    exact List.mem_map.mpr ⟨e, (hmem e).mpr ((hsel.2 e).mpr ⟨he, hf, p, hp, hm⟩), rfl⟩
+
+/-! ### the count policy does not depend on the order in which the set yields its elements -/
+
+theorem entryLe_antisymm (a b : Entry) (h1 : entryLe a b = true) (h2 : entryLe b a = true) :
+    a.mtime = b.mtime ∧ a.name = b.name := by
+  have m1 := entryLe_meaning a b h1
+  have m2 := entryLe_meaning b a h2
+  have hm : a.mtime = b.mtime := by omega
+  exact ⟨hm, strLe_antisymm _ _ (m1.2 hm) (m2.2 hm.symm)⟩
+
+/-- **Python's set iteration order cannot influence which files `retention_count` removes**: for
+any two orders of the same candidates (names distinct) the removed list is the same – the sort key
+(GENERATED: `(-mtime, name)`) is a total order without ties on distinct names.  (With the name dropped
+from the key this fails: the key has ties and the survivors depend on the hash order.) -/
+theorem count_independent_of_collection_order (l₁ l₂ : List Entry) (n : Int) (hu : NamesUnique l₁)
+    (hp : l₁.Perm l₂) : retentionCount l₁ n = retentionCount l₂ n := by
+  unfold retentionCount
+  rw [isort_eq_of_perm entryLe entryLe_total entryLe_trans l₁ l₂ ?_ hp]
+  intro a ha b hb hab hba
+  exact hu a ha b hb (entryLe_antisymm a b hab hba).2
+
+/-- … and for the age policy the removed files are the same up to order -/
+theorem age_independent_of_collection_order (l₁ l₂ : List Entry) (now d : Int) (hp : l₁.Perm l₂) :
+    (retentionAge l₁ now d).Perm (retentionAge l₂ now d) := hp.filter _
+
+/-- one pass of the sink as the code performs it (comprehension, set, policy) removes what the
+reference model `retentionPass` (filter of the population, policy) removes: the same list for a
+count, the same files for a duration -/
+theorem pass_as_written_eq_reference (ps : List Str) (pol : Policy) (now : Int) (entries : List Entry)
+    (hnd : entries.Nodup) (hu : NamesUnique entries) :
+    (passRemoves ps pol now entries).Perm (retentionPass ps pol now entries) ∧
+    (∀ n, pol = .count n → passRemoves ps pol now entries = retentionPass ps pol now entries) := by
+  have hp := (collect_perm_select ps entries hnd).2
+  have hu' : NamesUnique (collectLogs ps entries) := by
+    intro a ha b hb hab
+    have ha' := ((mem_selectLogs ps entries a).mp ((mem_collectLogs ps entries a).mp ha)).1
+    have hb' := ((mem_selectLogs ps entries b).mp ((mem_collectLogs ps entries b).mp hb)).1
+    exact hu a ha' b hb' hab
+  constructor
+  · cases pol with
+    | count n =>
+      show (retentionCount _ n).Perm (retentionCount _ n)
+      rw [count_independent_of_collection_order _ _ n hu' hp]
+    | age s => exact age_independent_of_collection_order _ _ now s hp
+  · rintro n rfl
+    exact count_independent_of_collection_order _ _ n hu' hp
+
+/-! ### histories: every pass is a function of the directory at that moment -/
+
+/-- **Safety over every history.**  For every configured path, policy, initial directory and every
+finite history of outside events (files appearing, changing type or modification time, disappearing)
+interleaved with any number of retention passes at any clock values: what is stored under a name
+OUTSIDE the family is, at the end, exactly what it would be had retention never run.  No sequence of
+passes ever removes (or otherwise affects) a file that is not the sink's own. -/
+theorem history_never_touches_names_outside_the_family (path : Str) (ps : List Str)
+    (h : makeGlobPatterns path = .ok ps) (pol : Policy) (entries : List Entry) (evs : List Ev)
+    (n : Str) (hn : ¬ family path n) :
+    (runEvs ps pol entries evs).filter (fun e => e.name == n) =
+      (runEvs ps pol entries (outsideOnly evs)).filter (fun e => e.name == n) := by
+  have hno : ∀ p ∈ ps, pathMatch p n = false := by
+    intro p hp
+    cases hm : pathMatch p n with
+    | false => rfl
+    | true => exact absurd (patterns_sound path n ps h p hp hm) hn
+  exact proj_history ps pol n hno evs entries entries rfl
+
+/-- … and whatever a pass removes, at whatever point of whatever history, was at that moment an
+entry of the directory, a regular file, and a member of the family -/
+theorem history_pass_removes_only_regular_family_files (path : Str) (ps : List Str)
+    (h : makeGlobPatterns path = .ok ps) (pol : Policy) (entries : List Entry) (evs : List Ev) (now : Int) :
+    let dir := runEvs ps pol entries evs
+    ∀ e ∈ passRemoves ps pol now dir, e ∈ dir ∧ e.isFile = true ∧ family path e.name := by
+  intro dir e he
+  have h1 := (mem_collectLogs ps dir e).mp (mem_of_mem_passRemoves ps pol now dir e he)
+  obtain ⟨h2, h3, p, hp, hm⟩ := (only_regular_files ps dir).1 e h1
+  exact ⟨h2, h3, patterns_sound path e.name ps h p hp hm⟩
+
+/-- **Count policy at every pass of every history**: after a pass with count N the selected files
+left in the directory are exactly the first N of the order (mtime descending, name ascending) of the
+selected files as the directory was JUST BEFORE the pass (modification times read then, not
+remembered); everything else in the directory is untouched; and a further pass on the unchanged
+directory removes nothing.  (The directory holds one entry per name, initially – and then for ever,
+`namesNodup_run`.) -/
+theorem history_count_pass (ps : List Str) (N : Nat) (entries : List Entry) (evs : List Ev) (now : Int)
+    (h0 : (entries.map (·.name)).Nodup) :
+    let before := runEvs ps (.count N) entries evs
+    let after := runEvs ps (.count N) entries (evs ++ [.pass now])
+    (∀ e, e ∈ selectLogs ps after ↔ e ∈ (isort entryLe (selectLogs ps before)).take N) ∧
+    (∀ e ∈ before, e ∉ selectLogs ps before → e ∈ after) ∧
+    (∀ now', passRemoves ps (.count N) now' after = []) := by
+  intro before after
+  have hnn : NamesNodup before := namesNodup_run ps (.count N) evs entries h0
+  have hb : before.Nodup := nodup_of_namesNodup _ hnn
+  have hu : NamesUnique before := namesUnique_of_namesNodup _ hnn
+  have hafter : after = removeAll (passRemoves ps (.count N) now before) before := by
+    show runEvs ps (.count N) entries (evs ++ [.pass now]) = _
+    unfold runEvs
+    rw [List.foldl_append]
+    rfl
+  have hdel : passRemoves ps (.count N) now before = (isort entryLe (selectLogs ps before)).drop N := by
+    rw [(pass_as_written_eq_reference ps (.count N) now before hb hu).2 N rfl]
+    show retentionCount (selectLogs ps before) N = _
+    unfold retentionCount sliceFrom Gen.countSliceStart
+    simp
+  have hsorted_nd : (isort entryLe (selectLogs ps before)).Nodup :=
+    (isort_perm entryLe _).nodup_iff.mpr (by unfold selectLogs; exact List.Pairwise.filter _ hb)
+  have hmem : ∀ e, e ∈ selectLogs ps after ↔ e ∈ (isort entryLe (selectLogs ps before)).take N := by
+    intro e
+    rw [hafter, selectLogs_removeAll, List.mem_filter, mem_take_iff_not_mem_drop _ hsorted_nd, hdel,
+      (isort_perm entryLe (selectLogs ps before)).mem_iff]
+    simp
+  refine ⟨hmem, ?_, ?_⟩
+  · intro e he hns
+    rw [hafter]
+    unfold removeAll
+    rw [List.mem_filter]
+    refine ⟨he, ?_⟩
+    have : e ∉ passRemoves ps (.count N) now before := by
+      intro hm
+      exact hns ((mem_collectLogs ps before e).mp (mem_of_mem_passRemoves ps _ now before e hm))
+    simpa using this
+  · intro now'
+    have hand : after.Nodup := by rw [hafter]; exact nodup_removeAll _ _ hb
+    have hperm : (collectLogs ps after).Perm ((isort entryLe (selectLogs ps before)).take N) := by
+      refine (List.perm_ext_iff_of_nodup (collect_perm_select ps after hand).1 ?_).mpr ?_
+      · exact List.Pairwise.sublist (List.take_sublist _ _) hsorted_nd
+      · intro e; rw [mem_collectLogs]; exact hmem e
+    show retentionCount (collectLogs ps after) N = []
+    apply (count_extremes (collectLogs ps after)).1 N
+    rw [hperm.length_eq, List.length_take]
+    omega
+
+/-- **Duration policy at every pass of every history**: after a pass at clock value `now` the selected
+files left are exactly those modified after `now − d` (as the directory was just before the pass), and
+a further pass at the same clock value removes nothing -/
+theorem history_age_pass (ps : List Str) (d : Int) (entries : List Entry) (evs : List Ev) (now : Int) :
+    let before := runEvs ps (.age d) entries evs
+    let after := runEvs ps (.age d) entries (evs ++ [.pass now])
+    (∀ e, e ∈ selectLogs ps after ↔ (e ∈ selectLogs ps before ∧ e.mtime > now - d)) ∧
+    passRemoves ps (.age d) now after = [] := by
+  intro before after
+  have hafter : after = removeAll (passRemoves ps (.age d) now before) before := by
+    show runEvs ps (.age d) entries (evs ++ [.pass now]) = _
+    unfold runEvs
+    rw [List.foldl_append]
+    rfl
+  have hmem : ∀ e, e ∈ selectLogs ps after ↔ (e ∈ selectLogs ps before ∧ e.mtime > now - d) := by
+    intro e
+    rw [hafter, selectLogs_removeAll, List.mem_filter]
+    constructor
+    · rintro ⟨h1, h2⟩
+      refine ⟨h1, ?_⟩
+      have hnot : e ∉ retentionAge (collectLogs ps before) now d := by simpa [passRemoves] using h2
+      exact ((age_keeps_recent (collectLogs ps before) now d e).2 ((mem_collectLogs ps before e).mpr h1)).mp hnot
+    · rintro ⟨h1, h2⟩
+      refine ⟨h1, ?_⟩
+      have hnot : e ∉ retentionAge (collectLogs ps before) now d :=
+        ((age_keeps_recent (collectLogs ps before) now d e).2 ((mem_collectLogs ps before e).mpr h1)).mpr h2
+      simpa [passRemoves] using hnot
+  refine ⟨hmem, ?_⟩
+  show retentionAge (collectLogs ps after) now d = []
+  rw [List.eq_nil_iff_forall_not_mem]
+  intro e he
+  have h1 := ((age_keeps_recent (collectLogs ps after) now d e).1.mp he)
+  have h2 := (hmem e).mp ((mem_collectLogs ps after e).mp h1.1)
+  omega
+
+/-- what a sort key built on a REMEMBERED modification time would do: whenever a kept file `a` has
+been modified since its time was remembered (remembered `m` < the other file's mtime < `a`'s mtime),
+count 1 removes `a` – the most recently modified file – where the code as it is removes the other -/
+theorem remembered_mtime_refuted (a b : Entry) (m : Int) (cache : Str → Option Int)
+    (hc : cache a.name = some m) (hb : cache b.name = none) (h1 : m < b.mtime) (h2 : b.mtime < a.mtime) :
+    retentionCountCached cache [a, b] 1 = [a] ∧ retentionCount [a, b] 1 = [b] := by
+  constructor
+  · unfold retentionCountCached sliceFrom Gen.countSliceStart
+    have hle : entryLe { a with mtime := (cache a.name).getD a.mtime } { b with mtime := (cache b.name).getD b.mtime } = false := by
+      simp only [hc, hb, Option.getD_some, Option.getD_none, entryLe, keyLe, entryKey, Gen.keyLog]
+      have e1 : decide (-m < -b.mtime) = false := by simp; omega
+      have e2 : (-m == -b.mtime) = false := by simp; omega
+      rw [e1, e2]; rfl
+    simp [isort, insertBy, hle]
+  · unfold retentionCount sliceFrom Gen.countSliceStart
+    have hle : entryLe a b = true := by
+      unfold entryLe keyLe entryKey Gen.keyLog
+      simp only [Bool.or_eq_true, decide_eq_true_eq, Bool.and_eq_true, beq_iff_eq]
+      left; omega
+    simp [isort, insertBy, hle]
+
+/-! ## Round 5 – the sink's own file names -/
+
+/-- **The file the sink creates is a member of its family** (`_create_path` =
+`path.format_map({"time": …})`): for every template and every rendering of its fields by non-empty
+text free of `/`, in directory components as well as in the file name -/
+theorem created_path_in_family (path : Str) (v : List FTok) (hp : parseTemplate path = .ok (v.map FTok.erase))
+    (hv : fillsOk goodFill v) : family path (instantiate v) := by
+  refine ⟨_, hp, ?_⟩
+  rw [← guarded_eq_plain goodFill v hv]
+  unfold familyToks
+  rw [List.any_eq_true]
+  refine ⟨v.map FTok.erase, ?_, tokensMatch_guarded goodFill goodFill_spec v⟩
+  simp only [variants]
+  split <;> simp
+
+/-- … so it is among the candidates of every later pass while it is a regular file with no component
+starting with `.` (it counts towards N; it is handed to a callable) -/
+theorem created_path_is_selected (path : Str) (ps : List Str) (v : List FTok)
+    (hp : parseTemplate path = .ok (v.map FTok.erase)) (hps : makeGlobPatterns path = .ok ps)
+    (hv : fillsOk goodFill v) (hh : ∀ c ∈ comps (instantiate v), isHidden c = false)
+    (entries : List Entry) (e : Entry) (he : e ∈ entries) (hname : e.name = instantiate v)
+    (hk : e.kind = .regular) : e ∈ collectLogs ps entries := by
+  obtain ⟨p, hpp, hm⟩ := patterns_complete path _ ps hps (created_path_in_family path v hp hv) hh
+  rw [mem_collectLogs, mem_selectLogs]
+  exact ⟨he, ⟨p, hpp, by rw [hname]; exact hm⟩, (filter_is_regular e.kind).mpr hk⟩
+
+/-- **The name a rotated file is moved to is a member of the family** (`_terminate_file` when the new
+file would have the same name: `root, ext = os.path.splitext(old_path)`, then the GENERATED
+`"{}.{}{}".format(root, date, ext)` / `"{}.{}.{}{}".format(root, date, counter, ext)`): for every
+template whose fields render to non-empty text free of `/` and `.`, every date text and counter text
+free of `/` -/
+theorem renamed_path_in_family (path : Str) (v : List FTok) (hp : parseTemplate path = .ok (v.map FTok.erase))
+    (hv : fillsOk goodFillD v) (date : Str) (counter : Option Str)
+    (hd : goodFill date = true) (hk : ∀ k, counter = some k → goodFill k = true) :
+    family path (renameTarget (instantiate v) date counter) := by
+  refine ⟨_, hp, ?_⟩
+  -- the text inserted before the extension
+  let ins : Str := match counter with | none => date | some k => date ++ '.' :: k
+  have hins : goodFill ins = true := by
+    cases counter with
+    | none => exact hd
+    | some k =>
+      have hk' := goodFill_spec k (hk k rfl)
+      have hd' := goodFill_spec date hd
+      show goodFill (date ++ '.' :: k) = true
+      unfold goodFill
+      simp only [Bool.and_eq_true, Bool.not_eq_true', List.any_eq_false]
+      refine ⟨by cases date <;> simp_all, ?_⟩
+      intro c hc
+      rw [List.mem_append, List.mem_cons] at hc
+      rcases hc with hc | hc | hc
+      · simpa using hd'.2 c hc
+      · subst hc; decide
+      · simpa using hk'.2 c hc
+  -- split the template and the rendered name the same way
+  have hgD : ∀ s, goodFillD s = true → s ≠ [] ∧ ∀ c ∈ s, isSepC c = false :=
+    fun s h => ⟨(goodFillD_spec s h).1, (goodFillD_spec s h).2.1⟩
+  have hgD' : ∀ s, goodFillD s = true → s ≠ [] ∧ ∀ c ∈ s, isDotC c = false :=
+    fun s h => ⟨(goodFillD_spec s h).1, (goodFillD_spec s h).2.2⟩
+  have hsplit := splitextG_flatMap (guarded_compat_sep goodFillD hgD) (guarded_compat_dot goodFillD hgD') v
+  rw [guarded_eq_plain goodFillD v hv] at hsplit
+  have happ := splitextG_append isSepF isDotF v
+  generalize hre : splitextG isSepF isDotF v = re at hsplit happ
+  obtain ⟨rv, ev⟩ := re
+  simp only at hsplit happ
+  have hvS : fillsOk goodFill v := fun s hs => goodFillD_goodFill s (hv s hs)
+  have hrv : fillsOk goodFillD rv := fun s hs => hv s (by rw [← happ]; simp [hs])
+  have hev : fillsOk goodFillD ev := fun s hs => hv s (by rw [← happ]; simp [hs])
+  -- the renamed file is the rendering of `root ++ "." ++ <anything> ++ ext`
+  let w : List FTok := rv ++ [.lit '.', .fill ins] ++ ev
+  have hw : fillsOk goodFill w := by
+    intro s hs
+    simp only [w, List.mem_append, List.mem_cons, List.mem_nil_iff, or_false] at hs
+    rcases hs with (hs | hs | hs) | hs
+    · exact goodFillD_goodFill s (hrv s hs)
+    · cases hs
+    · cases hs; exact hins
+    · exact goodFillD_goodFill s (hev s hs)
+  have hname : renameTarget (instantiate v) date counter = instantiate w := by
+    unfold renameTarget
+    show (match counter with
+          | none => Gen.renamedPath (splitext (instantiate v)).1 date (splitext (instantiate v)).2
+          | some k => Gen.renamedPathN (splitext (instantiate v)).1 date k (splitext (instantiate v)).2) = _
+    unfold splitext
+    rw [hsplit, guarded_eq_plain goodFillD rv hrv, guarded_eq_plain goodFillD ev hev]
+    cases counter <;>
+      simp [Gen.renamedPath, Gen.renamedPathN, instantiate, w, ins, FTok.plain, List.flatMap_append]
+  rw [hname, ← guarded_eq_plain goodFill w hw]
+  have hm := tokensMatch_guarded goodFill goodFill_spec w
+  -- and the template of that rendering is one of the variants
+  have hT := splitextG_flatMap erase_compat_sep erase_compat_dot v
+  rw [flatMap_singleton_map, hre] at hT
+  simp only [flatMap_singleton_map] at hT
+  unfold familyToks
+  rw [List.any_eq_true]
+  refine ⟨w.map FTok.erase, ?_, hm⟩
+  have hwmap : w.map FTok.erase = rv.map FTok.erase ++ dotAny ++ ev.map FTok.erase := by
+    simp [w, dotAny, FTok.erase]
+  rw [hwmap]
+  simp only [variants, hT]
+  split
+  · rename_i hempty
+    have : ev = [] := by cases ev <;> simp_all
+    subst this
+    have : rv = v := by simpa using happ
+    subst this
+    simp
+  · simp
+
+/-- the GENERATED default format of an empty `{time}` spec renders to text the two theorems above
+accept: only numeric strftime directives (each renders at least one digit), literal characters that are
+neither `/` nor `.` -/
+theorem default_time_format_is_a_good_fill :
+    Gen.defaultTimeSpec ≠ [] ∧
+    (specDirectives Gen.defaultTimeSpec).all (fun d => "YmdHMSfjUWyIGVu".toList.contains d) = true ∧
+    (specLiterals Gen.defaultTimeSpec).all (fun c => !(isSepC c || isDotC c)) = true := by
+  refine ⟨by decide, by decide, by decide⟩
+
 /-! ### non-vacuity -/
 
 /-- the test-suite's `test_symbol_in_filename` situation and worse: `a[b]*.log` -/
@@ -462,5 +829,18 @@ example : Dur.parseDuration "900 ms".toList = .ok (some 900000) := by rfl
 example : (retentionConfigured "a.log".toList (.str "2 s 700 ms".toList) 10000000
       [⟨"a.log.1".toList, .regular, 10000000 - 2100000⟩, ⟨"a.log.2".toList, .regular, 10000000 - 3500000⟩]).map
       (·.map (·.name)) = .ok ["a.log.2".toList] := by rfl
+
+/-! round 5 -/
+/-- `app.{time}.log` created with the default time format; rotated twice within one microsecond -/
+example : familyB "logs/{time}/app.log".toList (instantiate (("logs/".toList.map FTok.lit) ++ [.fill "2026".toList] ++ ("/app.log".toList.map FTok.lit))) = some true := by decide
+example : renameTarget "app.log".toList "2026-09-30_04-00-00_000000".toList none = "app.2026-09-30_04-00-00_000000.log".toList := by decide
+example : renameTarget "app.log".toList "2026-09-30_04-00-00_000000".toList (some "2".toList) = "app.2026-09-30_04-00-00_000000.2.log".toList := by decide
+example : familyB "app.log".toList (renameTarget "app.log".toList "2026-09-30_04-00-00_000000".toList (some "2".toList)) = some true := by decide
+/-- two passes with a modification in between: the second pass reads the modification time again -/
+example : (runEvs ["a.*".toList] (.count 1) [⟨"a.1".toList, .regular, 5⟩, ⟨"a.2".toList, .regular, 7⟩, ⟨"b".toList, .regular, 1⟩]
+    [.put ⟨"a.3".toList, .regular, 6⟩, .pass 0, .put ⟨"a.4".toList, .regular, 3⟩, .put ⟨"a.4".toList, .regular, 9⟩, .pass 0]).map (·.name)
+    = ["a.4".toList, "b".toList] := by decide
+example : outsideOnly [.pass 0, .del "x".toList, .pass 1] = [.del "x".toList] := by decide
+example : (comprehension ["a.log.*".toList, "a.*.log".toList] [⟨"a.log.log".toList, .regular, 1⟩]).length = 2 := by decide
 
 end C10
